@@ -514,7 +514,7 @@ pub fn memops(out: &mut Out, seed: u64, thorough: bool, scn: Option<&str>) {
                     3 => ("new_pdu".into(), 0),
                     4 | 5 => ("new_frag".into(), *rng.pick(&ids) as usize),
                     6 | 7 => ("take_frag".into(), *rng.pick(&ids) as usize),
-                    8 => ("save_frag".into(), rng.below(4)),
+                    8 => ("save_frag".into(), rng.below(4) + 8 * (*rng.pick(&ids) as usize % 4)),
                     _ => ("reprovision".into(), rng.below(4)),
                 },
             };
@@ -610,12 +610,13 @@ pub fn memops(out: &mut Out, seed: u64, thorough: bool, scn: Option<&str>) {
                     if held.is_empty() {
                         continue;
                     }
-                    let (c, b) = held.remove(arg % held.len());
+                    // arg = index of the held pair + 8 * frag id for a fresh context
+                    let (c, b) = held.remove((arg % 8) % held.len());
                     let c = match c {
                         Some(c) => c,
                         None => {
                             serial += 1;
-                            mk_ctx(ids[arg % ids.len()], serial)
+                            mk_ctx((arg / 8) as u8, serial)
                         }
                     };
                     let (id, s, tag) = (c.frag_id as usize, c.pdu_len as usize, b.len());
